@@ -13,6 +13,8 @@ type Profile struct {
 	Config func(r *Rng, tier string) Config
 	Gen    func(r *Rng, tier string) *genProfile
 	Oracle func(w *World) Oracle
+	// GenFn, when set, replaces the common generator.
+	GenFn func(r *Rng, tier string, w *World) Generator
 	// Nontrivial says whether a finished run exercised the property's positive
 	// case at least once (reach probes of this run).
 	Nontrivial func(s *Stats) bool
@@ -39,10 +41,15 @@ func steps(tier string, quick, thorough int) int {
 func (p *Profile) defaultRun(t *testing.T, seed uint64, tier string) *RunResult {
 	r := NewRng(seed)
 	cfg := p.Config(r.Fork(1), tier)
-	gp := p.Gen(r.Fork(2), tier)
+	gr2 := r.Fork(2)
 	plan := Plan{Prop: p.ID, Seed: seed, Tier: tier, Cfg: cfg}
 	gr := r.Fork(3)
-	return runSequence(t, plan, func(w *World) Generator { return newCommonGen(gr, gp, w) }, p.Oracle, false)
+	return runSequence(t, plan, func(w *World) Generator {
+		if p.GenFn != nil {
+			return p.GenFn(gr, tier, w)
+		}
+		return newCommonGen(gr, p.Gen(gr2, tier), w)
+	}, p.Oracle, false)
 }
 
 func (p *Profile) defaultReplay(t *testing.T, plan Plan, keepTrace bool) *RunResult {
@@ -399,5 +406,96 @@ func init() {
 		Oracle:        newC13Oracle,
 		Nontrivial:    anyReach("c13_"),
 		RequiredReach: []string{"c13_totp_enabled", "c13_sms_enabled", "c13_totp_disabled", "c13_sms_disabled", "c13_everify_ok", "c13_recovery_code_consumed"},
+	})
+
+	register(&Profile{
+		ID: "C08",
+		Config: func(r *Rng, tier string) Config {
+			c := baseConfig(r)
+			c.dropSetups("expire")
+			c.ensureModules("logout")
+			c.ensureSetups("totp")
+			c.dropModules("lock", "confirm")
+			if r.Chance(2, 3) {
+				c.ensureModules("remember")
+			}
+			c.EmailAuth2FA = false
+			for i := range c.Accounts {
+				c.Accounts[i].Confirmed = true
+				c.Accounts[i].SMS = false
+				c.Accounts[i].TOTP = i == 0
+			}
+			return c
+		},
+		GenFn: func(r *Rng, tier string, w *World) Generator {
+			return &c08Gen{r: r, max: steps(tier, 2, 5)}
+		},
+		Oracle:     newC08Oracle,
+		Nontrivial: anyReach("c08_admitted"),
+		RequiredReach: []string{"c08_admitted", "c08_admitted_reqs1", "c08_admitted_reqs2", "c08_admitted_reqs3", "c08_refused_mode0", "c08_refused_mode1", "c08_refused_mode2",
+			"c08_storage_error_500", "c08_redirect_target_ok_plain", "c08_redirect_target_ok_with_query", "c08_redirect_target_ok_path_special"},
+	})
+	register(&Profile{
+		ID: "C09",
+		Config: func(r *Rng, tier string) Config {
+			c := baseConfig(r)
+			c.ensureSetups("expire")
+			c.dropModules("remember", "lock")
+			c.ensureModules("logout")
+			if r.Chance(1, 2) {
+				c.dropModules("confirm")
+			}
+			c.EmailAuth2FA = false
+			c.ExpireAfter = []time.Duration{2 * time.Second, 30 * time.Second, 5 * time.Minute, time.Hour, 24 * time.Hour}[r.Intn(5)]
+			if len(c.Whitelist) == 0 && r.Bool() {
+				c.Whitelist = []string{"app_cart"}
+			}
+			for i := range c.Accounts {
+				c.Accounts[i].Confirmed = true
+			}
+			return c
+		},
+		Gen: func(r *Rng, tier string) *genProfile {
+			return &genProfile{MaxSteps: steps(tier, 40, 100), Default: 0, FollowUp: 60, Template: 35,
+				Templates: []string{"login_ok", "idle_probe", "idle_probe", "oauth_flow", "register_flow", "otp_flow", "recover_flow"},
+				Weights: withW(loginWeights, map[string]int{"probe": 30, "advance": 10, "app_session_put": 8, "logout": 3, "oauth2_start": 4, "oauth2_callback": 4,
+					"register": 4, "drop_session": 1, "copy_cookie": 0, "stale_cookie": 0, "set_cookie": 0, "totp_setup": 3, "sms_setup": 3, "everify_start": 0}),
+				BadSecret: 20, ThreshGaps: 45, SmallGaps: 25,
+				Thresholds: func(c *Config) []time.Duration { return []time.Duration{c.ExpireAfter} }}
+		},
+		Oracle:        newC09Oracle,
+		Nontrivial:    anyReach("c09_expired_request"),
+		RequiredReach: []string{"c09_expired_request", "c09_live_request", "c09_login_login", "c09_login_oauth2_callback", "c09_login_register", "c09_login_totp_validate"},
+	})
+	register(&Profile{
+		ID: "C10",
+		Config: func(r *Rng, tier string) Config {
+			c := baseConfig(r)
+			c.ensureModules("logout")
+			if r.Chance(1, 4) {
+				c.ensureSetups("expire")
+				c.dropModules("remember")
+			} else {
+				c.dropSetups("expire")
+			}
+			if r.Chance(2, 3) {
+				c.dropModules("lock")
+			}
+			if r.Chance(2, 3) {
+				c.dropModules("confirm")
+			}
+			return c
+		},
+		Gen: func(r *Rng, tier string) *genProfile {
+			return &genProfile{MaxSteps: steps(tier, 40, 100), Default: 1, FollowUp: 35, Template: 40,
+				Templates: []string{"logout_from_state", "logout_from_state", "logout_from_state", "remember_cycle", "enroll_totp", "enroll_sms"},
+				Weights: withW(loginWeights, map[string]int{"logout": 16, "probe": 8, "app_session_put": 8, "oauth2_start": 6, "totp_setup": 5, "sms_setup": 5, "everify_start": 4,
+					"login": 20, "advance": 5}),
+				BadSecret: 20, ThreshGaps: 10, SmallGaps: 20}
+		},
+		Oracle:     newC10Oracle,
+		Nontrivial: anyReach("c10_logout_from_"),
+		RequiredReach: []string{"c10_logout_from_uid", "c10_logout_from_anon", "c10_next_request_refused", "c10_wrong_method_ignored", "c10_whitelisted_kept", "c10_cookie_removed",
+			"c10_logout_from_pending", "c10_logout_from_oauth2"},
 	})
 }
